@@ -238,7 +238,7 @@ def deep(e):
     if o == "pi":
         return "RPi"
     if o == "var":
-        return '(RV "%s")' % e.val
+        return '(RV "%s"%%string)' % e.val
     if o in ("add", "sub", "mul", "div"):
         c = {"add": "RAdd", "sub": "RSub", "mul": "RMul", "div": "RDiv"}[o]
         return "(%s %s %s)" % (c, deep(e.args[0]), deep(e.args[1]))
